@@ -194,30 +194,33 @@ def merged_fields(db, ctx):
         B, E = peel_casts(a[1]), peel_casts(a[2])
         pcs = path_conditions(c["id"], jk.hir) or []
 
+        from ..db import deref_all
+        measures = []
+
         def ev_len(n):
             def ev(atom):
                 cm = cmp_atom(atom)
                 if not cm:
                     return None
                 for x, y, op in ((cm[1], cm[2], cm[0]), (cm[2], cm[1], SWAP[cm[0]])):
-                    px = peel_casts(x)
-                    if px.get("k") == "Binary" and px.get("op") == "Sub" and nf(px["l"]) == nf(E) and nf(px["r"]) == nf(B) and lit_int(y) is not None:
+                    px = deref_all(x)          # `let len = end - begin; if len > 1` is the same test
+                    if isinstance(px, dict) and px.get("k") == "Binary" and px.get("op") == "Sub" and nf(px["l"]) == nf(E) and nf(px["r"]) == nf(B) and lit_int(y) is not None:
+                        if px not in measures:
+                            measures.append(px)
                         return holds(op, n, lit_int(y))
                 if cm[0] in ("Eq", "Ne") and {nf(cm[1]), nf(cm[2])} == {nf(B), nf(E)}:
                     return (n == 0) if cm[0] == "Eq" else (n != 0)
                 return None
             return ev
         long_only = holds_at(pcs, ev_len(1)) is False and holds_at(pcs, ev_len(2)) is not False
-        # ... and neither bound is changed between that test and the call
+        # ... and neither bound is changed between the point where the length is measured and the call
         stale = []
-        guard_ifs = [p for p in ps if p.get("k") == "If" and any(peel_casts(x).get("k") == "Binary" and peel_casts(x).get("op") == "Sub" for x, _ in walk(p["cond"]))]
-        if guard_ifs:
-            region = guard_ifs[-1]["then"]
-            seen_call = False
-            for x, _ in walk(region):
-                if x is c:
-                    seen_call = True
-                if not seen_call and x.get("k") in ("Assign", "AssignOp") and peel(x["l"]).get("lid") in (B.get("lid"), E.get("lid")):
+        order = [x for x, _ in walk(jk.hir)]
+        pos = {id(x): i_ for i_, x in enumerate(order)}
+        if measures and id(c) in pos:
+            m_at = min(pos.get(id(m_), len(order)) for m_ in measures)
+            for x in order[m_at:pos[id(c)]]:
+                if x.get("k") in ("Assign", "AssignOp") and peel(x["l"]).get("lid") in (B.get("lid"), E.get("lid")):
                     stale.append(render(x))
         ctx.ob("JoinKatakanaOovPlugin|merge-needs-two-nodes", long_only and not stale,
                "concat_oov_nodes(path, %s, %s, ..) is reached only when %s - %s >= 2: %s; bounds changed between the test and the call: %s (a single "
